@@ -25,3 +25,4 @@ import E57.Spec.Decoder
 import E57.Proofs.WellFormed
 import E57.Proofs.XmlRoundTrip
 import E57.Proofs.Closed
+import E57.Proofs.Walk
